@@ -341,3 +341,14 @@ def fx_lru(fx):
     n = lru.list_ops_under_index_lock(c2, fx, "src/lib.rs", "lrufx::Map", "Map::hash_map")
     return (_fires(c, "Map::bad_get_notouch") and not _fires(c, "Map::ok_get") and not _fires(c, "Map::bad_get_unlocked")
             and n == 2 and _fires(c2, "Map::bad_get_unlocked") and not _fires(c2, "Map::ok_get"))
+
+
+def fx_viewcursor(fx):
+    from rules import linear
+    c = _ctx()
+    n = linear.view_capacity(c, fx, "viewfx::Region", "size", "actual_size", ["src/lib.rs"])
+    c2 = _ctx()
+    linear.guard_on_cursor(c2, fx, "viewfx::Chunk::ok_carve")
+    linear.guard_on_cursor(c2, fx, "viewfx::Chunk::bad_carve")
+    return (n >= 4 and _fires(c, "B::bad_alloc") and not _fires(c, "A::ok_alloc")
+            and _fires(c2, "Chunk::bad_carve") and not _fires(c2, "Chunk::ok_carve"))
